@@ -5,6 +5,7 @@ import (
 	"go/constant"
 	"go/token"
 	"go/types"
+	"regexp"
 	"sort"
 	"strings"
 
@@ -1511,11 +1512,31 @@ func indexSafetyWith(p *core.Prog, r *core.Run, rule string, fns []*ssa.Function
 					r.Check(rule, fmt.Sprintf("%s:assert %s", p.FuncName(fn), p.X(x).Name), false, p.InstrPos(in), "unchecked type assertion %s", short(p.X(x)))
 					continue
 				case *ssa.Call:
-					if name := p.X(x).Name; strings.HasSuffix(name, ".BytesOrPanic") {
+					name := p.X(x).Name
+					if strings.HasSuffix(name, ".BytesOrPanic") {
 						nSites++
 						r.Check(rule, fmt.Sprintf("%s:BytesOrPanic", p.FuncName(fn)), false, p.InstrPos(in), "BytesOrPanic on peer-dependent data")
 					}
-					continue
+					// encoding/binary's fixed-width accessors index their argument: b[N-1]
+					mm := reBinaryFixed.FindStringSubmatch(name)
+					if mm == nil {
+						continue
+					}
+					width := map[string]int64{"16": 2, "32": 4, "64": 8}[mm[1]]
+					var buf ssa.Value
+					for _, a := range x.Call.Args {
+						if _, isSlice := a.Type().Underlying().(*types.Slice); isSlice && buf == nil {
+							buf = a
+						}
+					}
+					if buf == nil {
+						continue
+					}
+					desc = "implicit index in " + lastDot(name) + "(" + short(p.X(buf)) + ")"
+					goals = append(goals, struct {
+						name string
+						g    func(facts *[]ineq) lin
+					}{fmt.Sprintf("len >= %d", width), func(f *[]ineq) lin { return s.lenLin(buf, f, 0).add(newLin(width), -1) }})
 				case *ssa.BinOp:
 					if (x.Op == token.QUO || x.Op == token.REM) && isIntType(x.Type()) {
 						if c, ok := x.Y.(*ssa.Const); ok && c.Value != nil && c.Int64() != 0 {
@@ -1595,6 +1616,8 @@ func (s *safety) provePhiCases(in ssa.Instruction, b *ssa.BasicBlock, goal func(
 	}
 	return false
 }
+
+var reBinaryFixed = regexp.MustCompile(`^\(encoding/binary\.(?:bigEndian|littleEndian)\)\.(?:Put|Append)?Uint(16|32|64)$`)
 
 // proveWithNE retries a goal using one "a != b" guard: with a <= b known it
 // becomes a < b (and symmetrically).
